@@ -82,6 +82,16 @@ def check(ctx):
     ctx.call_func(I, st, fe, arr("X", "nX", "D"))
     ok = len(seen) == 1 and len(seen[0][0]) >= 2 and seen[0][0][0].loc is not None and seen[0][0][0].loc == seen[0][0][1].loc
     ctx.ob("NF-DIST", "Y=None without a cell: sklearn receives one array object for both operands (exact zero self-distances)", ok, f"{len(seen)} call(s); operands {[(repr(a_.term)[:40], a_.loc) for a_ in (seen[0][0][:2] if seen else [])]}", ctx.site(fe), "Y=None,cell=None")
+    # Y omitted with a cell: the distances of X to itself, computed like any other pair of sets
+    for squared in (False, True):
+        cfg = f"Y=None,cell=True,squared={squared}"
+        X1, cell1 = arr("X", "nX", "D"), arr("cell", "D")
+        I, st = ctx.interp(), State()
+        r = ctx.call_func(I, st, fe, X1, squared=squared, cell_length=cell1)
+        I2, s2 = ctx.interp(), State()
+        ref = ctx.call_func(I2, s2, "ref.pairwise_ref.periodic_euclidean", X1, X1, cell1, squared)
+        ctx.compare("R-WRAP", f"periodic_pairwise_euclidean_distances(X) == reference for (X, X) [{cfg}]", N, r, ref, ctx.site(fe), cfg)
+        ctx.no_shape_conflicts("Shape", f"periodic_pairwise_euclidean_distances(X) [{cfg}]", I, 0, ctx.site(fe), cfg)
     for cell_on in (False, True):
         for squared in (False, True):
             cfg = f"cell={cell_on},squared={squared}"
